@@ -7,9 +7,6 @@ import Rtp.Proofs.AV1Depack
 namespace Rtp.Props.C15.AV1
 open Rtp Rtp.Model Rtp.Model.AV1
 
-theorem z_bit : ∀ b : UInt8, (b &&& 0x80 != 0) = !(b.toNat / 128 % 2 == 0) := by
-  apply Rtp.Bits.forall_u8; decide +kernel
-
 /-- For every receiver state `st` (any buffered fragment, any flags) and every frame whose first
     packet is readable and has Z = 0: feeding the frame yields exactly the results, and leaves
     exactly the receiver, that a fresh depacketizer gives. -/
@@ -22,21 +19,6 @@ theorem c15_av1 (st : DSt) (frame : List Bytes) (h : Pred.C15Av1.frameStarts fra
       rw [z_bit]; simp only [Pred.C15Av1.frameStarts] at h; simp [h]
     simp only [depFeed, depUnmarshal_z0 st {} b0 b1 rest hz]
     simp
-
-/-- no result of a feed is a panic -/
-theorem depFeed_no_panic (st : DSt) (ps : List Bytes) :
-    ((depFeed st ps).1.map Res.coarse).all (fun r => !r.isPanic) = true := by
-  induction ps generalizing st with
-  | nil => simp [depFeed]
-  | cons p ps ih =>
-    simp only [depFeed, List.map_cons, List.all_cons, ih, Bool.and_true]
-    have := depUnmarshal_ne_panic st p
-    cases hr : (depUnmarshal st p).1 <;> simp_all [Res.coarse, Res.isPanic]
-
-theorem depFeed_length (st : DSt) (ps : List Bytes) : (depFeed st ps).1.length = ps.length := by
-  induction ps generalizing st with
-  | nil => simp [depFeed]
-  | cons p ps ih => simp [depFeed, ih]
 
 /-- kind `c15.av1`: the predicate the harness evaluates on the real receiver holds of the model for
     every prehistory (any list of payloads, nil and garbage included) and every frame -/
